@@ -358,7 +358,52 @@ def no_hidden_state(ck, rule):
                         continue
                     ck.bad(rule, f, "no function writes into a module-level container", "%s written in %s" % (base, f.qualname), node,
                            "a memo keyed by part of the inputs returns what an earlier, different call computed")
-    ck.ok(rule, "fxpmath package", "%d attribute / container stores examined: only documented instance attributes, no module-level state" % n, nontrivial=False)
+    # (d) class-level containers (shared by every instance) are never written, directly or through a local alias
+    MUT = ("append", "extend", "update", "setdefault", "pop", "clear", "add", "insert", "remove", "popitem", "move_to_end", "discard")
+    cls_cont = {}
+    for m, tree in prog.modules.items():
+        for st in tree.body:
+            if isinstance(st, ast.ClassDef):
+                for s2 in st.body:
+                    if isinstance(s2, (ast.Assign, ast.AnnAssign)):
+                        v = s2.value
+                        tg = s2.targets if isinstance(s2, ast.Assign) else [s2.target]
+                        mut = isinstance(v, (ast.Dict, ast.List, ast.Set, ast.DictComp, ast.ListComp, ast.SetComp)) or \
+                            (isinstance(v, ast.Call) and (dotted(v.func) or "").split(".")[-1] in ("dict", "list", "set", "OrderedDict", "defaultdict", "WeakKeyDictionary", "WeakValueDictionary", "deque", "Counter", "bytearray"))
+                        if mut:
+                            for t in tg:
+                                if isinstance(t, ast.Name):
+                                    cls_cont.setdefault(st.name, set()).add(t.id)
+    if cls_cont:
+        names = set()
+        for v_ in cls_cont.values():
+            names |= v_
+
+        def is_cls_attr(e):
+            if not (isinstance(e, ast.Attribute) and e.attr in names):
+                return False
+            b = e.value
+            return dotted(b) in ("self", "cls", "self.__class__") or dotted(b) in cls_cont or (isinstance(b, ast.Call) and dotted(b.func) == "type")
+        for f in prog.all_funcs():
+            alias = set()
+            for node in ast.walk(f.node):
+                if isinstance(node, ast.Assign) and len(node.targets) == 1 and isinstance(node.targets[0], ast.Name) and is_cls_attr(node.value):
+                    alias.add(node.targets[0].id)
+            for node in ast.walk(f.node):
+                base = None
+                if isinstance(node, ast.Subscript) and isinstance(node.ctx, (ast.Store, ast.Del)):
+                    base = node.value
+                elif isinstance(node, ast.Call) and isinstance(node.func, ast.Attribute) and node.func.attr in MUT:
+                    base = node.func.value
+                elif isinstance(node, ast.AugAssign) and isinstance(node.target, ast.Subscript):
+                    base = node.target.value
+                if base is None:
+                    continue
+                if is_cls_attr(base) or (isinstance(base, ast.Name) and base.id in alias):
+                    n += 1
+                    ck.bad(rule, f, "no function writes into a class-level container (state shared by every object)", "%s written in %s" % (src(base)[:40], f.qualname), node,
+                           "a memo shared by all instances and keyed by part of the inputs returns what an earlier, different call computed")
+    ck.ok(rule, "fxpmath package", "%d attribute / container stores examined: only documented instance attributes, no module-level or class-level state" % n, nontrivial=False)
 
 
 def reset_only_by_user(ck, rule):
